@@ -123,15 +123,16 @@ type traceLine struct {
 var streamThreads = []string{"t1", "t2", "t3"}
 
 type streamWorld struct {
-	d      *dir.Director
-	pipe   *dir.GatedPipe
-	enc    *dir.GateEnc
-	s      *drpcstream.Stream
-	nstart int
-	wseen  int
-	direct []string // failures of direct monitors
-	wr     *drpcwire.Writer
-	opts   drpcstream.Options
+	d       *dir.Director
+	pipe    *dir.GatedPipe
+	enc     *dir.GateEnc
+	s       *drpcstream.Stream
+	nstart  int
+	wseen   int
+	direct  []string // failures of direct monitors
+	wr      *drpcwire.Writer
+	opts    drpcstream.Options
+	finSeen bool // Finished was observed at an earlier quiescent point
 }
 
 // successor: once the stream is finished, the manager creates the next stream on the same writer.  Nothing of the
@@ -364,6 +365,14 @@ func (w *streamWorld) observe() (streamObs, bool) {
 		o.NewW = append(o.NewW, fs)
 	}
 	// direct monitors of the property statement (independent of the model)
+	if w.finSeen && len(o.NewW) > 0 {
+		// the manager admits the next stream once this one reports finished: a frame handed to the transport after that
+		// follows frames of the later stream
+		w.direct = append(w.direct, "a frame was handed to the transport after the stream had reported finished")
+	}
+	if o.Fin {
+		w.finSeen = true
+	}
 	ctx := w.s.Context()
 	select {
 	case <-ctx.Done():
@@ -790,3 +799,69 @@ func streamLiveMu(c *vf.Ctx, mu *sync.Mutex) {
 }
 
 func init() { All["LIVEDEV"] = streamLive }
+
+// streamWire is the single-stream part of C07: seeded stimulus sequences over every stream call and packet kind from
+// three goroutines (the handler side of a connection may use a stream from several goroutines, which the
+// connection world's scripted handler does not), judged by the wire clauses of the property alone: whole frames,
+// ids in order, one kind per id, nothing after the final frame of an id, and nothing after the stream reported
+// finished (from then on the manager lets the next stream write).
+func streamWire(c *vf.Ctx) {
+	rng := rand.New(rand.NewSource(c.Seed ^ 0x57a3))
+	n := 600
+	if !c.Quick() {
+		n = 6000
+	}
+	allOps := []string{"MsgSend1", "MsgSend2", "RawWrite1", "RawFlush", "MsgRecv", "CloseSend", "Close", "SendError",
+		"CancelC", "CancelD", "SendCancel", "PMsg", "PCloseSend", "PClose", "PError", "PCancel"}
+	runs, bad := 0, 0
+	for _, cf := range []struct{ small, manual bool }{{true, false}, {false, false}, {true, true}} {
+		for i := 0; i < n/3; i++ {
+			var stims []stim
+			for j, m := 0, 4+rng.Intn(12); j < m; j++ {
+				switch r := rng.Intn(10); {
+				case r < 6:
+					stims = append(stims, stim{K: "start", T: streamThreads[rng.Intn(3)], Op: allOps[rng.Intn(len(allOps))]})
+				case r < 9:
+					stims = append(stims, stim{K: "relw", How: []string{"ok", "ok", "err"}[rng.Intn(3)]})
+				default:
+					stims = append(stims, stim{K: "relu"})
+				}
+			}
+			w := newStreamWorld(cf.small, cf.manual)
+			lines, quiet := w.run(stims)
+			w.cleanup()
+			if !quiet {
+				continue
+			}
+			runs++
+			var fl []dir.WFrame
+			for _, wr := range w.pipe.Writes() {
+				if wr.PErr != nil {
+					w.direct = append(w.direct, "a transport write is not a sequence of whole frames")
+				}
+				fl = append(fl, wr.Frames...)
+			}
+			for k := 1; k < len(fl); k++ {
+				a, b := fl[k-1], fl[k]
+				if b.Sid < a.Sid || (b.Sid == a.Sid && b.Mid < a.Mid) {
+					w.direct = append(w.direct, "frame ids go backwards on the wire (single stream)")
+				}
+				if a.Sid == b.Sid && a.Mid == b.Mid && (a.Kind != b.Kind || a.Done) {
+					w.direct = append(w.direct, "two kinds under one id, or a frame after the final frame of an id (single stream)")
+				}
+			}
+			seen := map[string]bool{}
+			for _, dm := range w.direct {
+				if seen[dm] || !(strings.Contains(dm, "frame") || strings.Contains(dm, "transport")) {
+					continue
+				}
+				seen[dm] = true
+				bad++
+				c.Violation("stream wire: "+dm, map[string]any{"small": cf.small, "manual": cf.manual, "stimuli": stims, "trace": lines})
+			}
+			k, _ := json.Marshal(lines)
+			c.Eval("sw" + string(k))
+		}
+	}
+	c.Cov["stream_level_wire_runs"] = runs
+}
